@@ -37,7 +37,7 @@ VARIANTS = {
 
 WRAPS = ['syscall', 'nsync_time_now', 'nsync_yield_', 'nsync_panic_',
          '_ZN5nsync14nsync_time_nowEv', '_ZN5nsync12nsync_yield_Ev', '_ZN5nsync12nsync_panic_EPKc',
-         'nsync_mu_semaphore_p', 'nsync_mu_semaphore_p_with_deadline']
+         'nsync_mu_semaphore_p', 'nsync_mu_semaphore_p_with_deadline', 'nsync_mu_semaphore_v']
 
 _scratch = None
 
